@@ -374,6 +374,13 @@ class EvolvableModule(nn.Module, metaclass=ModuleMeta):
         :param value: The value of the attribute.
         :type value: Any
         """
+        # A sub-module that replaces an existing one (e.g. the network re-created after a mutation)
+        # stays in the train / eval mode of the one it replaces
+        if isinstance(value, nn.Module):
+            replaced = self.__dict__.get("_modules", {}).get(name)
+            if isinstance(replaced, nn.Module):
+                value.train(replaced.training)
+
         # Add mutation methods to the network
         if isinstance(value, EvolvableModule):
             if name in self.__dict__["_modules"]:
@@ -688,6 +695,9 @@ class EvolvableModule(nn.Module, metaclass=ModuleMeta):
             clone.load_state_dict(self.state_dict())
         except RuntimeError:
             pass
+
+        # The clone computes the same function as the original: same train / eval mode
+        clone.train(self.training)
 
         return clone
 
